@@ -537,11 +537,15 @@ pub fn for_each_subset(n: usize, k: usize, mut f: impl FnMut(&[usize])) {
       f(cur);
       return;
     }
-    for i in start..n {
+    let need = k - cur.len();
+    for i in start..=(n - need) {
       cur.push(i);
       rec(n, k, i + 1, cur, f);
       cur.pop();
     }
+  }
+  if k > n {
+    return;
   }
   let mut cur = vec![];
   rec(n, k, 0, &mut cur, &mut f);
@@ -604,4 +608,34 @@ pub fn structured_selections(n: usize, t: usize) -> Vec<Vec<usize>> {
     out.push(v);
   }
   out
+}
+
+/// data-parallel map usable inside a single case (std threads; results in input order)
+pub fn par_map<T: Sync, R: Send>(items: &[T], f: impl Fn(usize, &T) -> R + Sync) -> Vec<R> {
+  let next = AtomicUsize::new(0);
+  let n = threads().min(items.len().max(1));
+  let mut chunks: Vec<Vec<(usize, R)>> = vec![];
+  std::thread::scope(|s| {
+    let hs: Vec<_> = (0..n)
+      .map(|_| {
+        s.spawn(|| {
+          let mut out = vec![];
+          loop {
+            let i = next.fetch_add(1, Ordering::Relaxed);
+            if i >= items.len() {
+              break;
+            }
+            out.push((i, f(i, &items[i])));
+          }
+          out
+        })
+      })
+      .collect();
+    for h in hs {
+      chunks.push(h.join().expect("par_map worker"));
+    }
+  });
+  let mut all: Vec<(usize, R)> = chunks.into_iter().flatten().collect();
+  all.sort_by_key(|x| x.0);
+  all.into_iter().map(|x| x.1).collect()
 }
